@@ -28,8 +28,8 @@ ASSUMPTIONS = [
 ]
 EXHAUSTIVE = {"quick": True, "thorough": True}
 EXHAUSTIVE_DOMAIN = {
-    "quick": "all ordered pairs of a fixed 420-label universe x 12 rules",
-    "thorough": "all ordered pairs of a fixed 1600-label universe x 12 rules",
+    "quick": "all ordered pairs of a fixed 700-label universe x 12 rules",
+    "thorough": "all ordered pairs of a fixed 2200-label universe x 12 rules",
 }
 
 IMPLIES = [("tetrads_inv", "tetrads"), ("tetrads", "triads"), ("triads", "thirds"),
@@ -121,12 +121,12 @@ def install(ctx, mods):
 
 
 def plan(tier, seed):
-    size = 420 if tier == "quick" else 1600
-    parts = 12 if tier == "quick" else 32
+    size = 700 if tier == "quick" else 2200
+    parts = 16 if tier == "quick" else 32
     shards = [{"name": "lattice-%d" % p, "kind": "lattice", "size": size, "part": p,
                "parts": parts} for p in range(parts)]
     shards.append({"name": "evaluate", "kind": "evaluate",
-                   "n": 150 if tier == "quick" else 3000})
+                   "n": 600 if tier == "quick" else 8000})
     return shards
 
 
